@@ -195,13 +195,14 @@ def search(ctx):
         out.append("{[2 %s]}" % s)
     reqs = ["C19.check\tsb\t" + t for t in out]
     # every kind of use site with a small differing structure, alone and after an agreeing one
-    G = ["sb", "rwsb", "sbc", "sbtd", "sbreg", "sbarr", "rwsbarr", "sbarr2", "sbarru", "sbbl", "sbtdarr", "sbarrtd", "sbarrtd2"]
+    G = ["sb", "rwsb", "sbc", "sbtd", "sbreg", "sbarr", "rwsbarr", "sbarr2", "sbarru", "sbbl", "sbtdarr", "sbarrtd", "sbarrtd2",
+         "sbmulti", "sbns", "sbst", "sbex"]
     F = ["bload", "bload2", "rwbload", "rwbload2", "rwbstore", "rwbstoret", "baload", "rwbaload", "rwbastore", "rwbastoret"]
-    W = ["m", "u", "t", "me", "p", "a"]
+    W = ["m", "u", "t", "me", "p", "a", "pf", "ns", "lp", "tt", "two", "tm", "mt", "hb"]
     sites = G + [f + "." + w for f in F for w in W]
-    sites += [f + "." + w for f in ("bload", "rwbload", "baload", "rwbaload") for w in ("gi", "da", "ex")]
+    sites += [f + "." + w for f in ("bload", "rwbload", "baload", "rwbaload") for w in ("gi", "da", "ex", "pd", "sl")]
     sites += ["bload2.ex", "rwbload2.ex"]
-    for tgt in ("vk:np:0", "msl:pipe:0", "dx:np:0"):
+    for tgt in ("vk:np:0", "msl:pipe:0", "dx:np:0", "vk:npo:0", "dx:pname:0"):
         for s in sites:
             for t in ("{f f2}", "{h h2 f}", "{{f2 f} f}"):
                 reqs.append("C19.prog\t%s\t%s\t%s@0" % (tgt, t, s))
